@@ -504,8 +504,9 @@ class SearchCriteriaTask(Task):
         same = len(got) == len(want) and all(isinstance(x, tuple) and x[0] == y[0] and x[1] == y[1] and (x[2] is y[2] or x[2] == y[2]) for x, y in zip(got, want))
         I.ob(f"{P}/adds-exactly-the-criteria-of-its-kind-of-matching-on-the-key's-column", same, detail=f"got {got!r}, want {want!r}")
         I.ob(f"{P}/the-result-is-the-query-it-was-handed-restricted-by-those-criteria-and-nothing-else",
-             isinstance(out, Env) and out.path == base + ("+filter" if want else "") and len(filters) == (1 if want else 0)
-             and all(e.args[0] == base for e in filters), detail=f"{getattr(out, 'path', out)!r} {[(e.args[0]) for e in filters]}")
+             isinstance(out, Env) and out.path == base + "+filter" * len(filters) and (len(filters) >= 1) == bool(want)
+             and all(e.args[0] == base + "+filter" * i for i, e in enumerate(filters)),       # one filter() or a chain of them
+             detail=f"{getattr(out, 'path', out)!r} {[(e.args[0]) for e in filters]}")
 
 
 class EngineSemanticsTask(FiniteTask):
